@@ -7,6 +7,20 @@
 
 using namespace vc;
 
+// Heap content is an input the harness owns: arrays the library allocates come back filled with the byte the case chooses,
+// so that a value that depends on an array element read before it was ever written shows up the same way on every run.
+static bool g_fill_on = false;
+static unsigned char g_fill = 0;
+void *operator new[](std::size_t n)
+{
+  void *p = malloc(n ? n : 1);
+  if (!p) throw std::bad_alloc();
+  if (g_fill_on) memset(p, g_fill, n);
+  return p;
+}
+void operator delete[](void *p) noexcept { free(p); }
+void operator delete[](void *p, std::size_t) noexcept { free(p); }
+
 struct SCase { const char *name; std::string comp; std::vector<cvm::rvector> x; double expect; double tol; };
 
 int main(int argc, char **argv)
@@ -94,6 +108,45 @@ int main(int argc, char **argv)
       if (!(v0 > 0.05)) total.violation(std::string("C02:pair-list:vacuous-case:") + pl.name, det + ",\"value\":" + num(v0) + "}");
       total.seen("nontrivial", fnv(det));
       delete px;
+    }
+  }
+  // ---- a variable with a pair list defined in the MIDDLE of a run (its first evaluation is not a rebuild step): the value
+  // must be the one the same variable has when defined at the start, whatever the freshly allocated list happened to contain.
+  {
+    struct PL { const char *name; std::string comp; };
+    std::string g12 = " group1 { atomNumbers 1 2 3 }\n group2 { atomNumbers 4 5 6 7 }\n";
+    std::vector<PL> pls = {
+        {"coordNum/pairlist", "coordNum {\n cutoff 3.5\n tolerance 0.001\n pairListFrequency 5\n" + g12 + "}\n"},
+        {"coordNum/anisotropic+pairlist", "coordNum {\n cutoff3 (3.0, 5.0, 7.0)\n tolerance 0.001\n pairListFrequency 5\n" + g12 + "}\n"},
+        {"coordNum/pairlist+group2CenterOnly", "coordNum {\n cutoff 3.5\n tolerance 0.001\n pairListFrequency 5\n group2CenterOnly on\n" + g12 + "}\n"},
+        {"selfCoordNum/pairlist", "selfCoordNum {\n cutoff 3.5\n tolerance 0.001\n pairListFrequency 5\n group1 { atomNumbers 1 2 3 4 5 }\n}\n"},
+    };
+    std::vector<R> base = {R(0.3, -1.2, 0.8), R(1.9, 0.4, -0.6), R(-1.1, 1.5, 0.2), R(-0.7, -0.9, -1.4), R(0.9, 0.6, 1.7), R(2.4, -1.8, 0.3), R(-2.0, 0.1, 1.1)};
+    for (auto const &pl : pls) {
+      double vref = NAN;
+      for (int defined_at = 0; defined_at <= 4; defined_at++)
+        for (int fill = 0; fill <= (defined_at ? 1 : 0); fill++) {
+          total.count("evaluations");
+          std::string det = std::string("{\"case\":\"") + pl.name + "\",\"defined_at_step\":" + std::to_string(defined_at) +
+                            ",\"fresh_arrays_filled_with\":" + std::to_string(fill);
+          vproxy *px = new vproxy((int) base.size(), true);
+          for (size_t i = 0; i < base.size(); i++) px->x[i] = base[i];
+          if (px->config("colvar {\n name d\n distance {\n group1 { atomNumbers 1 }\n group2 { atomNumbers 2 }\n }\n}\n") != 0) return 3;
+          for (int st = 0; st < defined_at; st++) if (px->step(st) != 0) return 3;
+          g_fill = (unsigned char) fill; g_fill_on = true;
+          int rc = px->config("colvar {\n name c\n " + pl.comp + "}\n");
+          g_fill_on = false;
+          if (rc != 0) { total.violation(std::string("C02:pair-list:configuration-refused:") + pl.name, det + "}"); delete px; continue; }
+          if (px->step(defined_at) != 0) { total.violation(std::string("C02:pair-list:error-at-the-step:") + pl.name, det + "}"); delete px; continue; }
+          total.count("transitions");
+          double v = px->cv("c")->value().real_value;
+          if (defined_at == 0) { vref = v; if (!(v > 0.05)) total.violation(std::string("C02:pair-list:vacuous-case:") + pl.name, det + ",\"value\":" + num(v) + "}"); }
+          else if (!std::isfinite(v) || std::fabs(v - vref) > 1e-10 * std::max(1.0, std::fabs(vref)))
+            total.violation(std::string("C02:pair-list:value-of-a-variable-defined-in-the-middle-of-a-run-differs:") + pl.name,
+                            det + ",\"value\":" + num(v) + ",\"value_when_defined_at_the_start\":" + num(vref) + "}");
+          total.seen("nontrivial", fnv(det));
+          delete px;
+        }
     }
   }
   total.sample("{\"case\":\"coordNum/pair-exactly-at-the-cutoff\",\"expected\":0.5}");
